@@ -14,7 +14,7 @@ for d in sorted(glob.glob(os.path.join(V, "seeded", "*/")), key=key):
     sites = (v.get("check_quick") or {}).get("sites", [])[:2]
     ok = v.get("detected_by_quick")
     det += bool(ok); miss += (not ok)
-    rows.append("| %s | %s | %s | %s |" % (sid, what, ", ".join("`%s`" % s.replace("|", "/") for s in sites) if ok else "**not detected**", hist.get(sid, "caught by the quick tier as first built")))
+    rows.append("| %s | %s | %s | %s |" % (sid, what, ", ".join("`%s`" % s.replace("|", "/") for s in sites) if ok else "**not detected**", hist.get(sid, ("caught as first built by the check of %s: %s" % (v.get("checked_with_property"), m["cross_property_note"])) if m.get("cross_property_note") else "caught by the quick tier as first built")))
 table = "| seed | what it breaks (author's words, abridged) | first sites reported by the quick check | history |\n|---|---|---|---|\n" + "\n".join(rows)
 summary = "%d seeded changes; %d detected by the quick tier of their property, %d not; %d of them were missed by the first version of a check and led to a strengthening." % (det + miss, det, miss, len(hist))
 p = os.path.join(V, "DESIGN.md")
